@@ -9,7 +9,14 @@
      For a column-major compressed matrix the assignment visits the columns in order and, inside a column,
      the stored entries in storage order (InnerIterator yields (row, value) pairs), and keeps exactly those
      with row <= column.  The result is a fresh compressed matrix: outer index = cumulative counts.
-     Model: [triu].
+     Eigen's SparseTriangularView<Upper>::InnerIterator is  operator bool() = Base::operator bool() && index() <= outer :
+     the iteration over a column STOPS at the first stored entry with row > column.  The assignment therefore keeps, of
+     every column, the longest storage-order PREFIX of entries with row <= column (a takeWhile, not a filter); for columns
+     in which no entry with row <= column follows an entry with row > column (in particular for sorted columns) this is
+     the set of all entries with row <= column.  Checked against the code by harness/drv_updatep.cpp, e.g.
+     colptr [0,2,4], rowind [1,0,0,1], vals [7,2,5,6]  |->  colptr [0,0,2], rowind [0,1], vals [5,6].
+     Model: [triu] (faithful, takeWhile); [triu_filter] (all entries with row <= column) is the specification it meets
+     under [upper_first_cols].
 
    * update, validation loop (lines 1171-1181):
          if (P->rows() != this->m_data.n || P->cols() != this->m_data.n) { error; return; }
@@ -50,8 +57,19 @@ Definition col_entries (A : csc V) (j : nat) : list (nat * V) :=
 
 Definition keep_upper (j : nat) (e : nat * V) : bool := fst e <=? j.
 
-Definition triu_col (A : csc V) (j : nat) : list (nat * V) := filter (keep_upper j) (col_entries A j).
+(* the longest prefix whose elements satisfy f *)
+Fixpoint takew {A} (f : A -> bool) (l : list A) : list A :=
+  match l with
+  | [] => []
+  | x :: t => if f x then x :: takew f t else []
+  end.
+
+(* what the code keeps of column j: the iterator stops at the first entry below the diagonal *)
+Definition triu_col (A : csc V) (j : nat) : list (nat * V) := takew (keep_upper j) (col_entries A j).
 Definition triu_cols (A : csc V) : list (list (nat * V)) := map (triu_col A) (seq 0 (ncols A)).
+(* the specification: every stored entry with row <= column *)
+Definition triu_filter_col (A : csc V) (j : nat) : list (nat * V) := filter (keep_upper j) (col_entries A j).
+Definition triu_filter_cols (A : csc V) : list (list (nat * V)) := map (triu_filter_col A) (seq 0 (ncols A)).
 
 Definition triu (A : csc V) : csc V :=
   let cs := triu_cols A in
@@ -59,6 +77,18 @@ Definition triu (A : csc V) : csc V :=
         (cumsum 0 (map (@length _) cs))
         (map fst (concat cs))
         (map snd (concat cs)).
+
+Definition triu_filter (A : csc V) : csc V :=
+  let cs := triu_filter_cols A in
+  mkcsc (nrows A) (ncols A)
+        (cumsum 0 (map (@length _) cs))
+        (map fst (concat cs))
+        (map snd (concat cs)).
+
+(* in every column no entry with row <= column is stored after an entry with row > column: exactly the condition under
+   which the code's prefix is the whole upper part of the column *)
+Definition upper_first_cols (A : csc V) : bool :=
+  forallb (fun j => length (triu_col A j) =? length (triu_filter_col A j)) (seq 0 (ncols A)).
 
 (* strictly increasing *)
 Fixpoint incb (l : list nat) : bool :=
